@@ -79,7 +79,7 @@ class Ctx:
         m = re.search(r"(\d+) states generated, (\d+) distinct states found", out)
         gen, dist = (int(m.group(1)), int(m.group(2))) if m else (0, 0)
         viol = re.search(r"Invariant (\w+) is violated", out)
-        tviol = re.search(r"Temporal properties were violated", out)
+        tviol = re.search(r"Temporal propert(y|ies) .*violated", out)
         aviol = re.search(r"Action property (\w+) is violated", out)
         ok = "No error has been found" in out
         got = "ok" if ok else ("violates:" + viol.group(1) if viol else
